@@ -785,6 +785,117 @@ def run_c15(rep, tier, seed):
 # ---------------------------------------------------------------------------------------------
 # C16: graceful shutdown
 
+def binary_shutdown(rep, root):
+    """the server BINARY (src/bin/svr.rs: configuration file -> store -> server wired to Ctrl-C): SIGINT while one client has
+    an acknowledged SET, one is idle and one has sent half a frame; the process must exit by itself within 10 s, every client
+    must see complete replies then end of stream, and a second start on the same directory must still hold the value"""
+    import signal
+    import socket
+    import subprocess
+    import time as _t
+    tdir = os.path.join(WORK, "repo-target")
+    with Lock("cargo-bin"):
+        rc, out = sh(["cargo", "build", "--offline", "--bin", "svr", "--target-dir", tdir], cwd=REPO, timeout=1800)
+    if rc != 0:
+        rep.violation("build", dict(correspondence="the server binary does not build", output=out[-2000:]), no_input=True)
+        return
+    exe = os.path.join(tdir, "debug", "svr")
+    d = os.path.join(root + "-bin")
+    shutil.rmtree(d, ignore_errors=True)
+    os.makedirs(d)
+    with socket.socket() as s0:
+        s0.bind(("127.0.0.1", 0))
+        port = s0.getsockname()[1]
+    open(os.path.join(d, "conf.toml"), "w").write(
+        f'net.host = "127.0.0.1"\nnet.port = {port}\nnet.min_backoff_ms = 125\nnet.max_backoff_ms = 64000\nnet.max_connections = 16\n'
+        f'storage.path = "{os.path.join(d, "db")}"\nstorage.concurrency = 2\nstorage.readers_cache_size = 16\nstorage.max_file_size = 1000000\nstorage.sync = "none"\n'
+        'storage.merge.policy = "never"\nstorage.merge.check_interval_ms = 3600000\nstorage.merge.check_jitter = 0.3\n'
+        'storage.merge.triggers.fragmentation = 0.6\nstorage.merge.triggers.dead_bytes = 536870912\n'
+        'storage.merge.thresholds.fragmentation = 0.4\nstorage.merge.thresholds.dead_bytes = 134217728\nstorage.merge.thresholds.small_file = 10485760\n')
+
+    def start():
+        p = subprocess.Popen([exe, "--config", os.path.join(d, "conf")], stdout=subprocess.DEVNULL, stderr=subprocess.DEVNULL, cwd=d)
+        for _ in range(200):
+            try:
+                c = socket.create_connection(("127.0.0.1", port), timeout=1)
+                return p, c
+            except OSError:
+                if p.poll() is not None:
+                    return p, None
+                _t.sleep(0.05)
+        return p, None
+
+    def drain(c):
+        c.settimeout(8)
+        got = b""
+        try:
+            while True:
+                x = c.recv(65536)
+                if not x:
+                    return got, "eof"
+                got += x
+        except socket.timeout:
+            return got, "timeout"
+        except OSError:
+            return got, "reset"
+
+    rep.count("binary_shutdown_runs")
+    steps = []
+    p, a = start()
+    try:
+        if a is None:
+            rep.violation("oracle", dict(what="the server binary does not start / does not listen with a plain configuration file", script=[open(os.path.join(d, "conf.toml")).read()], observed=f"exit code {p.poll()}"))
+            return
+        a.sendall(req_bytes(("SET", b"bk", b"bv")))
+        a.settimeout(8)
+        r = a.recv(100)
+        steps.append(("SET bk bv", r))
+        b = socket.create_connection(("127.0.0.1", port), timeout=2)
+        c = socket.create_connection(("127.0.0.1", port), timeout=2)
+        c.sendall(req_bytes(("SET", b"half", b"x"))[:-4])
+        _t.sleep(0.2)
+        p.send_signal(signal.SIGINT)
+        try:
+            p.wait(timeout=10)
+            ended = f"exit {p.returncode}"
+        except subprocess.TimeoutExpired:
+            ended = "still running after 10 s"
+        ends = [drain(x) for x in (a, b, c)]
+        steps.append(("SIGINT", ended))
+        bad = None
+        if r != b"+OK\r\n":
+            bad = ("the first SET was not acknowledged", "+OK", r)
+        elif ended != "exit 0":
+            # killed by the signal (exit -2) = nobody was listening for it: `run` never returned
+            bad = ("the process did not stop by itself within 10 s of SIGINT (one acknowledged, one idle, one half-frame connection open)", "exit 0", ended)
+        elif any(g != b"" or e == "timeout" for g, e in ends):
+            bad = ("a client did not see a clean end of stream after the shutdown", "end of stream, no stray bytes", str(ends))
+        if bad is None:
+            p, a2 = start()
+            if a2 is None:
+                bad = ("the server binary does not start again on the directory it has just left", "listening", f"exit code {p.poll()}")
+            else:
+                a2.sendall(req_bytes(("GET", b"bk")) + req_bytes(("GET", b"half")))
+                a2.settimeout(8)
+                got = b""
+                try:
+                    while len(got) < len(b"$2\r\nbv\r\n$-1\r\n"):
+                        x = a2.recv(100)
+                        if not x:
+                            break
+                        got += x
+                except OSError:
+                    pass
+                if got != b"$2\r\nbv\r\n$-1\r\n":
+                    bad = ("after the restart the acknowledged SET is not there / the half-sent one is", "$2 bv, null", got)
+        if bad:
+            rep.violation("oracle", dict(what="server binary: " + bad[0], script=[str(x) for x in steps], expected=str(bad[1]), observed=str(bad[2])[:500]))
+    finally:
+        if p.poll() is None:
+            p.kill()
+        shutil.rmtree(d, ignore_errors=True)
+
+
 def run_c16(rep, tier, seed):
     rng = random.Random(seed * 1000 + 16)
     root = os.path.join(WORK, "run-C16")
@@ -886,9 +997,10 @@ def run_c16(rep, tier, seed):
                                              answers=[x[:200] for x in ans], failing_line=bad[0], expected=bad[1], observed=bad[2][:400]))
         if si < 3:
             rep.sample({"state": name, "script": [x[:100] for x in script], "answers": [x[:100] for x in ans]})
+    binary_shutdown(rep, root)
     shutil.rmtree(root, ignore_errors=True)
     rep.cov["rule"] = ("the shutdown future of the real server is fired at each handler state: idle, after a partial frame, inside a store call held on a gate (run must not return before the "
-                       "command finishes; its reply must arrive complete and its effect be in the store), with pipelined commands buffered, during a 600 KB reply to a reading client, with 32 pipelined 8 KiB replies, with clients that flood the server with back-to-back requests across the signal, and a mix; "
+                       "command finishes; its reply must arrive complete and its effect be in the store), with pipelined commands buffered, during a 600 KB reply to a reading client, with 32 pipelined 8 KiB replies, with clients that flood the server with back-to-back requests across the signal, and a mix; plus the server BINARY started from a configuration file and stopped with SIGINT (exits within 10 s, clean end of stream for an acknowledged, an idle and a half-frame client, the acknowledged SET there after a restart); "
                        "checked: run returns within 10 s, each client receives complete replies then end-of-stream (EOF or RST), every SET whose reply arrived is in the store; non-trivial = distinct scenario instance")
 
 
